@@ -628,6 +628,39 @@ pub fn run(_kind: &str, ctx: &Ctx, out: &mut dyn Write) {
         }
     }
 
+    // ---------------- the same assumption SET written with a repeated literal ----------------
+    // (sequential, no hook needed): `enum a 1` and `enum a 1 1` ask for the same set
+    {
+        let d = load(&["t 1 0".to_string()], Some(4)).expect("4 free features load");
+        let mut case = Case {
+            id: "c17-dupset".into(),
+            info: "4 free features; requests for the set {1} written as [1] and as [1,1], processed one after another".into(),
+            n: 4,
+            ddnnf: d,
+            keys: vec![Key { lits: vec![1], c: 8 }],
+        };
+        let reqs = vec![
+            Req { key: 0, amount: 3, lits: vec![1] },
+            Req { key: 0, amount: 3, lits: vec![1, 1] },
+        ];
+        let (refs, _) = sequential_reference(&mut case, &[]);
+        let mut s = case_header(&case, "dupset", &reqs, &refs, &[]);
+        writeln!(s, "run 0 workers 1 sequential sched").unwrap();
+        for (i, r) in reqs.iter().enumerate() {
+            let mut a = r.lits.clone();
+            let dd = &mut case.ddnnf;
+            let amount = r.amount;
+            let res = guarded(|| dd.enumerate(&mut a, amount));
+            writeln!(s, "ans 0 {} {}", i, answer_tokens(&res, case.n)).unwrap();
+        }
+        // leave the cursor of the second spelling at 0 again (a request for count(A) ends the cycle)
+        let dd = &mut case.ddnnf;
+        let _ = guarded(|| dd.enumerate(&mut vec![1, 1], 8));
+        writeln!(s, "explored 1 sequential").unwrap();
+        writeln!(s, "end").unwrap();
+        out.write_all(s.as_bytes()).unwrap();
+    }
+
     // ---------------- free-running stress (no hook needed) ----------------
     {
         let mut case = free14();
